@@ -236,8 +236,9 @@ def main(tier, seed):
             live.append((iso, o))
         # pass 2: read-only calls on the live objects (fills interpolator caches, creates backend states), identifier again
         for e, (iso, o) in zip(kept, live):
-            B.do_reads(iso, e, o, rng, 3 if not thorough else 4)
-            obs.append({"s": scen(e), "ok": o["ok"], "id": o["id"], "after": o["after"], "reads": o["reads"], "others": [], "error": o["error"]})
+            B.do_reads(iso, e, o, rng, 3 if not thorough else 4, everything=(e["mut"]["kind"] == "none" and _is_r0(e, table)))
+            obs.append({"s": scen(e), "ok": o["ok"], "id": o["id"], "after": o["after"], "reads": o["reads"], "others": [],
+                        "clones": o.get("clones", []), "error": o["error"]})
             run.count((e["base"], json.dumps(e["mut"], sort_keys=True), json.dumps(e["route"], sort_keys=True)),
                       nontrivial=not e["default"])
         del live
@@ -290,6 +291,8 @@ def main(tier, seed):
     for x in ans["changed_by_reads"]:
         bad_reads = sorted({r.split("!")[0] for r in x["reads"]})
         run.violation({"site": "iso_id", "kind": "changed by read-only calls", "cls": cls_of[x["s"]["base"]]}, {**x, "reads": bad_reads})
+    for x in ans["clone_differs"]:
+        run.violation({"site": "iso_id", "kind": "isotherm rebuilt from to_dict()/data has another identifier", "cls": cls_of[x["s"]["base"]]}, x)
     for x in ans["changed_by_process"]:
         run.violation({"site": "iso_id", "kind": "differs in another process / PYTHONHASHSEED", "cls": cls_of[x["s"]["base"]]}, x)
     if ans["drift_no_identifier"]:
@@ -306,8 +309,8 @@ def main(tier, seed):
             rule="scenario = base content (2 metadata-only, 4 point, 4 model) x minimal mutation (each metadata value/key, each unit label, material, adsorbate, "
                  "temperature, first/last datum of each numeric column +-1e-7, +6e-9, +4e-9, +-1e-10, branch mark, row removed/swapped, text cell, model "
                  "parameter/range/rmse/branch) x construction route (container, int/float literals, branch as ints/bools/column, direct/from_isotherm/JSON/"
-                 "deepcopy/dict, insertion order, adsorbate spelling, branch marks guessed (no marks given) under every row labelling, default unit labels omitted after an isotherm with other units was built, trivial user subclass), enumerated by TLC; " + ("all rows" if thorough else "every mutation on the default route, every route on the unmutated content, 6% seeded of the rest")
-                 + "; every object also re-built in " + ("2 other processes" if thorough else "1 other process") + " with another PYTHONHASHSEED and read through a seeded sequence of read-only calls; "
+                 "deepcopy/dict, insertion order, adsorbate spelling, metadata as numpy scalars of every kind, branch marks guessed (no marks given) under every row labelling, default unit labels omitted after an isotherm with other units was built, trivial user subclass), enumerated by TLC; " + ("all rows" if thorough else "every mutation on the default route, every route on the unmutated content, 6% seeded of the rest")
+                 + "; every object also re-built in " + ("2 other processes" if thorough else "1 other process") + " with another PYTHONHASHSEED and read through a seeded sequence of read-only calls (accessors plus consumers of to_dict()/model.to_dict()/data: clone idioms, from_isotherm, from_modelisotherm, exports, deepcopy; the whole alphabet on the default-route objects); "
                  "all pairs of one base judged by TLC; edit-after-read histories: every mutation applied IN PLACE to a live object whose id was read (iso_id / == / repr / in), through every way of editing (loc, iloc, at, column assignment, drop, properties[], setattr, setters, model.params[]), id compared with a fresh object of the edited content, then undone; non-trivial = not the unmutated default-route object; distinct = distinct (base, mutation, route)")
     run.assume("contents are rendered from the fixed-point records of the spec with decimal arithmetic; no rendered number lies on an 8-decimal rounding tie (InvWellFormed)")
     run.assume("md5 collisions are ignored; an exception in the export step of a 'parse of an export' route makes the route unrealisable (C06), not an identity failure")
